@@ -11,7 +11,7 @@ from vf.core import sig_of  # noqa: E402
 ID = "C06"
 LEVEL = "exploration"
 RULE = ("random commit DAGs (3-25 commits, 7% extra roots, 25% merges, parents among the latest 6), 1-4 remote "
-        "branches with names exercising numeric-aware order (release/1.2, 1.10, 9.9, 10.1, 2.0, master/main), "
+        "branches with names exercising numeric-aware order (release/1.2, 1.10, 9.9, 10.1, 2.0, 2-9, 2-10, 3_1, 3_10, rc-2, rc-10, master/main), "
         "heads 80% recent / 20% anywhere (so heads coincide with or lie inside other branches), build tags "
         "on 35% of commits (sometimes two tags on one commit), three kinds of messages (BUG-7, BUG-71, also "
         "in the message body), commit times within one day, 1-3 search texts per history. Oracle: "
@@ -43,7 +43,8 @@ TECHNIQUE = "runtime monitoring: DAG-reachability oracle over generated commit h
 
 BRANCH_NAMES = ["origin/release/1.0", "origin/release/1.10", "origin/release/1.2", "origin/release/2.0",
                 "origin/release/10.1", "origin/release/9.9", "origin/master", "origin/main",
-                "origin/release/1.2.1", "origin/release/1.02"]
+                "origin/release/1.2.1", "origin/release/1.02", "origin/release/2-9", "origin/release/2-10",
+                "origin/release/3_1", "origin/release/3_10", "origin/release/rc-2", "origin/release/rc-10"]
 TEXTS = ["BUG-7", "BUG-71", "fix"]
 
 
@@ -73,8 +74,12 @@ def gen_history(rng, max_commits=25):
     names = rng.sample(BRANCH_NAMES, rng.randint(1, 4))
     if "origin/master" in names and "origin/main" in names:
         names.remove("origin/main")
-    if "origin/release/1.2" in names and "origin/release/1.02" in names:
-        names.remove("origin/release/1.02")  # same sort key: order unspecified
+    seen_keys = set()
+    for nm in list(names):
+        k = repr(mg.branch_sort_key(nm))
+        if k in seen_keys:
+            names.remove(nm)     # same sort key (1.2 / 1.02): order unspecified
+        seen_keys.add(k)
     heads = {}
     for nm in names:
         heads[nm] = rng.choice(ids[-(n // 2 + 1):]) if rng.random() < 0.8 else rng.choice(ids)
@@ -188,7 +193,7 @@ def judge(ctx, repo, text, case):
     # ---- printed report
     try:
         report = repos.make_report(text)
-        printed = report.ch_text(no_color=True).plain_text()
+        printed = str(report.ch_text(no_color=True))
     except Exception as err:
         problems.append(("report-rendering-raises", {"type": type(err).__name__, "msg": str(err)[:200]}))
         printed = None
